@@ -7,6 +7,7 @@
                                 call site), compute_field_name, compute_variant_name
      crate serde-rename-rule 0.2.3         RenameRule::apply_to_field, apply_to_variant, from_rename_all_str
    analysis/struct_parser.rs  field.ident.unraw() / variant.ident.unraw()  (C01-raw-ident-strip)
+   written_value / find_key / first_quoted: the repair C06-8-9-serde-attr-spellings.
    State of the code: /repo with the repairs C06-1-variant-rule, C06-6-variant-skip,
    C15-fix-C15-rename-restart-offset and C15-fix-C15-camel-call-site-guard applied.
    The serde scanners are a private copy of the ones in Model/Scan.v (shared with C11),
@@ -118,58 +119,53 @@ Fixpoint after_char (c : ascii) (s : str) : option (str * str) :=
               else match after_char c r with Some (x, y) => Some (b :: x, y) | None => None end
   end.
 
-(* str::trim_start: Unicode White_Space, on UTF-8 bytes *)
 Definition nb (c : ascii) : N := N_of_ascii c.
-Definition ws_len (s : str) : nat :=          (* length in bytes of a leading white-space char, 0 if none *)
-  match s with
-  | a :: r =>
-      let x := nb a in
-      if (x <? 128)%N then (if ((9 <=? x) && (x <=? 13) || (x =? 32))%N then 1 else 0)
-      else match r with
-           | b :: r' =>
-               let y := nb b in
-               if ((x =? 194) && ((y =? 133) || (y =? 160)))%N then 2
-               else match r' with
-                    | c :: _ =>
-                        let z := nb c in
-                        if ((x =? 225) && (y =? 154) && (z =? 128))%N then 3
-                        else if ((x =? 226) && (y =? 128) && ((128 <=? z) && (z <=? 138) || (z =? 168) || (z =? 169) || (z =? 175)))%N then 3
-                        else if ((x =? 226) && (y =? 129) && (z =? 159))%N then 3
-                        else if ((x =? 227) && (y =? 128) && (z =? 128))%N then 3
-                        else 0
-                    | [] => 0 end
-           | [] => 0 end
-  | [] => 0 end.
-Fixpoint trim_start_go (fuel : nat) (s : str) : str :=
-  match fuel with
-  | 0 => s
-  | S f => match ws_len s with 0 => s | n => trim_start_go f (skipn n s) end
-  end.
-Definition trim_start (s : str) : str := trim_start_go (List.length s) s.
 
 (* ------------------------------------------------------------------ serde_parser.rs *)
-(* the text between the first two quote characters of after_eq *)
-Definition quoted_value (after_eq : str) : option str :=
-  match after_char """" after_eq with
+(* first_quoted: the text between the first two double quotes *)
+Definition quoted_value (text : str) : option str :=
+  match after_char """" text with
   | Some (_, r) => match after_char """" r with Some (v, _) => Some v | None => None end
   | None => None end.
 
-(* parse_rename: the loop restarts just after the _all that follows a rename (white space between
-   the two is skipped by trim_start) *)
-Fixpoint parse_rename_go (fuel : nat) (tokens : str) : option str :=
-  match fuel with
-  | 0 => None
-  | S f =>
-    match find_sub (L "rename") tokens with
-    | None => None
-    | Some (_, after_rename) =>
-        if starts (L "_all") (trim_start after_rename) then parse_rename_go f (skipn 4 (trim_start after_rename))
-        else match after_char "=" after_rename with
-             | Some (_, r) => quoted_value (trim_start r)
-             | None => None end
-    end
+(* find_key: the next occurrence of key that is a whole attribute key - not preceded by an ASCII
+   identifier character (rename in prerename, serialize in deserialize) and followed, after spaces,
+   by = or ( (so not rename in rename_all, nor rename_all in rename_all_fields). Returns the text
+   from that = or ( on. The Rust loop resumes after a rejected occurrence; none of the keys used
+   (rename, rename_all, serialize) overlaps itself, so no occurrence can start inside a rejected one
+   and looking at every position, as here, finds the same occurrence. prev_ident is the test on
+   the last character of text[..at]. *)
+Definition is_key_ident (c : ascii) : bool :=
+  let x := nb c in ((48 <=? x) && (x <=? 57) || (65 <=? x) && (x <=? 90) || (97 <=? x) && (x <=? 122) || (x =? 95))%N.
+Definition opens_value (rest : str) : bool :=
+  match rest with c :: _ => Ascii.eqb c "=" || Ascii.eqb c "(" | [] => false end.
+Fixpoint key_scan (key : str) (prev_ident : bool) (s : str) : option str :=
+  match s with
+  | [] => None
+  | c :: r =>
+      let rest := trim_l (skipn (List.length key) s) in           (* trim_start_matches(' ') *)
+      if starts key s && negb prev_ident && opens_value rest then Some rest
+      else key_scan key (is_key_ident c) r
   end.
-Definition parse_rename (tokens : str) : option str := parse_rename_go (S (List.length tokens)) tokens.
+Definition find_key (key text : str) : option str := key_scan key false text.
+Definition strip1 (c : ascii) (s : str) : option str :=           (* strip_prefix(c) *)
+  match s with x :: r => if Ascii.eqb x c then Some r else None | [] => None end.
+Definition cut_paren (group : str) : str :=                       (* group[..group.find(')').unwrap_or(len)] *)
+  match after_char ")" group with Some (b, _) => b | None => group end.
+(* written_value: key = <lit>, or the serialize entry of key(serialize = <lit>, deserialize = <lit>) *)
+Definition written_value (tokens key : str) : option str :=
+  match find_key key tokens with
+  | None => None
+  | Some rest =>
+      match strip1 "(" rest with
+      | Some group =>
+          match find_key (L "serialize") (cut_paren group) with
+          | Some r => match strip1 "=" r with Some x => quoted_value x | None => None end
+          | None => None end
+      | None => match strip1 "=" rest with Some x => quoted_value x | None => None end
+      end
+  end.
+Definition parse_rename (tokens : str) : option str := written_value tokens (L "rename").
 
 Definition rule_of_str (s : str) : option rule :=
   if str_eqb s (L "lowercase") then Some RLower
@@ -182,15 +178,9 @@ Definition rule_of_str (s : str) : option rule :=
   else if str_eqb s (L "SCREAMING-KEBAB-CASE") then Some RScreamingKebab
   else None.
 
-(* tokens.find(rename_all); tokens[start..].find('='); value between the next two quotes;
-   RenameRule::from_rename_all_str(value).ok() *)
+(* written_value(tokens, rename_all).and_then(from_rename_all_str(..).ok()) *)
 Definition parse_rename_all (tokens : str) : option rule :=
-  match find_sub (L "rename_all") tokens with
-  | Some (_, r0) =>
-      match after_char "=" r0 with              (* the pattern itself holds no '=' *)
-      | Some (_, r) => match quoted_value (trim_start r) with Some v => rule_of_str v | None => None end
-      | None => None end
-  | None => None end.
+  match written_value tokens (L "rename_all") with Some v => rule_of_str v | None => None end.
 
 Definition field_skip (tokens : str) : bool :=
   contains (L "skip") tokens && negb (contains (L "skip_serializing") tokens).
